@@ -605,12 +605,12 @@ func c02Configs(tier string) []c02Cfg {
 		bases = []base{{3, 2, false, 3, true}, {3, 2, true, 3, true}, {4, 2, false, 2, true}, {5, 2, true, 2, false},
 			{3, 3, false, 2, false}, {3, 3, true, 2, false}, {4, 3, false, 1, true}, {5, 3, false, 1, false}, {5, 3, true, 1, false}}
 	}
-	var out []c02Cfg
-	for _, b := range bases {
+	per := make([][]c02Cfg, len(bases))
+	for bi, b := range bases {
 		var rec func(cur []c02Op)
 		rec = func(cur []c02Op) {
 			if len(cur) == b.l {
-				out = append(out, c02Cfg{N: b.n, R: b.r, RR: b.rr, Ops: append([]c02Op{}, cur...), StabFaults: b.stab})
+				per[bi] = append(per[bi], c02Cfg{N: b.n, R: b.r, RR: b.rr, Ops: append([]c02Op{}, cur...), StabFaults: b.stab})
 				return
 			}
 			for _, o := range alpha {
@@ -619,7 +619,21 @@ func c02Configs(tier string) []c02Cfg {
 		}
 		rec(nil)
 	}
-	return out
+	// round-robin over the configurations, so that a run that hits its time budget has covered every
+	// configuration to the same extent
+	var out []c02Cfg
+	for i := 0; ; i++ {
+		any := false
+		for _, l := range per {
+			if i < len(l) {
+				out = append(out, l[i])
+				any = true
+			}
+		}
+		if !any {
+			return out
+		}
+	}
 }
 
 func init() {
@@ -662,7 +676,9 @@ func init() {
 		}
 		runs, points, maxp, outcomes := 0, 0, 0, 0
 		var byDev [4]int
-		core.RunJobs("c02", params, 30*time.Minute, func(idx int, res json.RawMessage, crash string) {
+		done := 0
+		core.RunJobsUntil("c02", params, 30*time.Minute, func(idx int, res json.RawMessage, crash string) {
+			done++
 			jp := params[idx].(c02Job)
 			if crash != "" {
 				c.Violate("C02/worker-crash/"+jp.Cfg.String(), "worker failed: "+crash, jp)
@@ -683,7 +699,7 @@ func init() {
 				c.Violate("C02/"+v.Key, fmt.Sprintf("%s; faults: %s => %s", jp.Cfg, strings.Join(v.Faults, " ; "), v.What),
 					map[string]interface{}{"cfg": jp.Cfg, "choices": v.Prefix})
 			}
-		})
+		}, c.TimeUp)
 		for i := 0; i < len(cfgs); i += len(cfgs)/6 + 1 {
 			c.Sample(cfgs[i].String())
 		}
@@ -695,7 +711,10 @@ func init() {
 		c.Cov["distinct_nontrivial"] = runs - byDev[0]
 		c.Cov["distinct_outcomes_total"] = outcomes
 		c.Cov["workloads_x_configurations"] = len(cfgs)
-		c.Cov["exhaustive"] = true
+		c.Cov["exhaustive"] = done == len(params)
+		if done < len(params) {
+			c.Cov["capped"] = fmt.Sprintf("time budget reached: %d of %d (configuration, workload) jobs explored completely, the others not started", done, len(params))
+		}
 		c.Cov["rule"] = "for every (N, R, read-repair, workload) configuration - workloads are all sequences of the given length over {put k0 via youngest, put k1 via oldest, del k0 via oldest, del k1 via youngest, put k2 via oldest}, k0 owned by the coordinator, k1 by the youngest member, k2 by a middle member - every fault schedule with at most R-1 stopped members: at each gap (before / between / after operations) any live member leaves gracefully, stops and is detected, or stops undetected until the end; at each command delivered between members during an operation (and, where enabled, during the re-stabilisation after an earlier stop) the caller or the callee stops before or after the command is handled, detected after the operation or only at the end. After the workload: detection, stabilisation to a fixpoint, then every key is read on every survivor and must be the last acknowledged value (or the value of a later unacknowledged / under-replicated operation); then Put, Delete, Put on every key through survivors with a Get on every survivor after each."
 		c.Assumef("a member that stops abruptly in the middle of executing an operation never acknowledges it (its return value is ignored); an operation acknowledged while fewer than R members were healthy and followed by a further stop is treated like an unacknowledged one; the network is the inline simulated one (command granularity), membership is the harness-driven layer")
 	}})
